@@ -173,7 +173,7 @@ print(c11.show(c11.run_impl(case)))
 
 
 # ------------------------------------------------------------------ generators
-TOKS = ["1", "22", "-3", "abc", "x y", "", " ", "1.5", "2,5", "1e3", "2021/02/03", "nan", "zz", "007", "12345678901"]
+TOKS = ["1", "22", "-3", "abc", "x y", "", " ", "1.5", "2,5", "1e3", "2021/02/03", "nan", "zz", "007", "12345678901", '"ab"', '3.5"', '"', "'q'", '"7"']
 
 
 def random_case(rng):
